@@ -1132,14 +1132,16 @@ impl ASN1Value {
                 };
                 Ok(())
             }
-            (ASN1Type::CharacterString(t), ASN1Value::String(s)) => {
+            // a cstring made of time-string characters (digits, capitals, `.:,+-`) is lexed as a time
+            // value; governed by a character string type it is an ordinary character string
+            (ASN1Type::CharacterString(t), ASN1Value::String(s) | ASN1Value::Time(s)) => {
                 *self = ASN1Value::LinkedCharStringValue(t.ty, s.clone());
                 Ok(())
             }
             (ASN1Type::CharacterString(t), ASN1Value::LinkedNestedValue { value, .. })
-                if matches![**value, ASN1Value::String(_)] =>
+                if matches![**value, ASN1Value::String(_) | ASN1Value::Time(_)] =>
             {
-                if let ASN1Value::String(s) = &**value {
+                if let ASN1Value::String(s) | ASN1Value::Time(s) = &**value {
                     **value = ASN1Value::LinkedCharStringValue(t.ty, s.clone());
                 }
                 Ok(())
